@@ -347,7 +347,8 @@ def handle (j : Json) : Except String Json := do
               keyword := ← (← e.getObjVal? "kw").getStr?, name := ← (← e.getObjVal? "name").getStr?,
               blankStr := ← (← e.getObjVal? "blank").getBool?, isSeq := ← (← e.getObjVal? "seq").getBool?,
               seqEmpty := ← (← e.getObjVal? "seq_empty").getBool?,
-              valueNone := ← (← e.getObjVal? "none").getBool?, creator := creator, transKeys := tk } : Ex.Elem)
+              valueNone := ← (← e.getObjVal? "none").getBool?, creator := creator, transKeys := tk,
+              customIgnored := (e.getObjValAs? Bool "custom").toOption.getD false } : Ex.Elem)
     pure (match Ex.extractKeys rules ts es with
       | none => Json.str "ValueError"
       | some ks => Json.arr (ks.map Json.str).toArray)
